@@ -88,11 +88,13 @@ def build_native(harnesses, wd, src_root=None, sanitize=False, with_zonedb=True,
     return outp
 
 
-def run_native(binary, entry, args, nondet, timeout=20):
+def run_native(binary, entry, args, nondet, timeout=20, params=None):
     """Returns (returncode or 'timeout', stdout lines, stderr text)."""
     a = list(args) + [0] * (4 - len(args))
     cmd = [binary, entry] + [str(x) for x in a] + [str(x) for x in nondet]
     env = dict(os.environ, ASAN_OPTIONS='detect_leaks=0:abort_on_error=0', UBSAN_OPTIONS='print_stacktrace=1')
+    if params is not None:
+        env['VERIF_PARAMS'] = ','.join(str(p) for p in params)
     try:
         p = subprocess.run(cmd, stdout=subprocess.PIPE, stderr=subprocess.PIPE, text=True, timeout=timeout, env=env)
     except subprocess.TimeoutExpired as e:
